@@ -32,6 +32,16 @@ func (c *Ctx) Fail(msg string) {
 
 var resets []func()
 
+func safeReset(f func()) (ok bool) {
+	defer func() {
+		if recover() != nil {
+			ok = false
+		}
+	}()
+	f()
+	return true
+}
+
 // RegisterReset registers a function that puts the package-level state of an instrumented
 // package back to its initial state; it runs before every execution.
 func RegisterReset(f func()) { resets = append(resets, f) }
@@ -133,8 +143,12 @@ func runOne(cfg *Config, prefix []int, visited map[uint64]cacheEntry, body func(
 	// package-level state of the instrumented packages starts afresh (no scheduler active
 	// while it is rebuilt: the shims behave like the real primitives)
 	S = nil
-	for _, f := range resets {
-		f()
+	for i, f := range resets {
+		if f != nil && !safeReset(f) {
+			// an initialiser that cannot run twice (it registers something elsewhere): this
+			// package's state is no longer rebuilt, as before the reset existed
+			resets[i] = nil
+		}
 	}
 	s := &Sched{yield: make(chan *Thread), epoch: epochCounter, timersLive: cfg.TimersLive}
 	if len(cfg.Promote) > 0 {
